@@ -114,9 +114,9 @@ SPECS["C26"] = {
 SPECS["C25"] = {
     "parts": [{"engine": "kani", "group": "ul", "select": r"^c25_", "mem_gb": 12, "timeout": {"quick": 1500, "thorough": 2400}}],
     "functions": ["dicom_ul::pdu::writer::write_pdu (+ write_chunk_u32)", "dicom_ul::pdu::reader::read_pdu"],
-    "bounds": "A-RELEASE-RQ/RP, A-ABORT (all sources/reasons symbolic), A-ASSOCIATE-RJ, P-DATA-TF with one PDV of 2 symbolic bytes (context id, type, last flag symbolic), unknown PDU type; "
+    "bounds": "A-RELEASE-RQ/RP, P-DATA-TF with one PDV of 2 symbolic bytes (context id, type, last flag symbolic), unknown PDU type; "
               "strict prefixes of concrete length per instance; strict mode on an arbitrary 6-byte header with symbolic maximum length",
-    "outside": "A-ASSOCIATE-RQ/AC with their variable items (string building in CBMC: not yet built), items longer than 65535 bytes (length arithmetic planned on Engine M), more than one PDV",
+    "outside": "A-ABORT and A-ASSOCIATE-RJ (bytes::Bytes pointer tagging defeats CBMC's pointer model: spurious failures that do not replay), A-ASSOCIATE-RQ/AC with their variable items (string building in CBMC: not yet built), items longer than 65535 bytes (length arithmetic planned on Engine M), more than one PDV",
     "assumptions": ["tracing macros stubbed to disabled", "oracle: PS3.8 9.3 framing checked on the written bytes in kani/ul/src/c25.rs"],
 }
 
@@ -147,4 +147,27 @@ SPECS["C16"] = {
     "outside": "feature sets other than default and native+deflate (jpeg2000, jpeg-ls, jpeg-xl bindings need system libraries); registration order effects of the inventory-based registry",
     "assumptions": ["registry contents are read through the public API of the real registry (native oracle) and the lookup is re-executed from the MIR of TransferSyntaxRegistryImpl::get over those keys; "
                     "contracts: HashMap::get as a finite map, char::is_whitespace on the Latin-1 range"],
+}
+
+SPECS["C05"] = {
+    "parts": [
+        {"engine": "kani", "group": "enc", "select": r"^c05_|^c03_decode_arbitrary|^c14_parse_len(8|9|11)$", "mem_gb": 10, "timeout": {"quick": 1800, "thorough": 3000},
+         "thorough_only": r"len(14|17|19)$"},
+        {"engine": "kani", "group": "ul", "select": r"^c25_strict_mode_header$|^c05_", "mem_gb": 10, "timeout": {"quick": 1800, "thorough": 3000}},
+    ],
+    "functions": ["dicom_core::value::deserialize::{parse_date, parse_date_partial, parse_time, parse_time_partial, parse_datetime_partial}", "dicom_core::value::range::{parse_date_range, parse_time_range}",
+                  "<Tag as FromStr>::from_str", "explicit LE/BE header decoders on arbitrary bytes", "dicom_ul::pdu::read_pdu on an arbitrary header"],
+    "bounds": "every byte string of the listed lengths (dates 0-10, times 1-14, date-times 4-19, ranges 9-17 bytes; tags 8, 9, 11 bytes; headers 12 bytes; PDU header 6 bytes); "
+              "no panic, overflow or out-of-bounds access (Kani's checks), every loop within its unwind bound",
+    "outside": "file opening / byte-source readers / collector (BufReader + global registry + dictionary), DICOM JSON text (serde_json), JPEG / deflate / RLE decoders (third-party or measured infeasible: RLE decode_frame 900 s without verdict), "
+               "data set readers on arbitrary streams and value readers for text VRs (measured > 8 GB), dump; attribute selectors",
+    "assumptions": ["Kani's panic / arithmetic overflow / bounds checks as the oracle"],
+}
+
+SPECS["C29"] = {
+    "parts": [{"engine": "m", "module": "c29"}],
+    "bounds": "any number of proposed presentation contexts up to 100 000 that create_a_associate_req lets through (its guards are taken from its own MIR), any pair of positions",
+    "outside": "agreement of requestor and acceptor on the negotiated contexts and maximum PDU lengths, local rejection of over-long sends, the loopback exchange (sockets, threads): not encoded",
+    "assumptions": ["callees of create_a_associate_req other than the context vector's len/is_empty are havocked (unconstrained): an over-approximation, so 'holds' is sound and every counterexample "
+                    "is replayed against a real requestor over a loopback socket before it is reported"],
 }
